@@ -432,6 +432,27 @@ func (se *ShapeEval) evalEntryList(entry *FuncRef, list []ast.Stmt) {
 			}
 			continue
 		}
+		// `b.Field = b.buildX()`: a build step that hands its text back instead of storing it
+		if as, ok := s.(*ast.AssignStmt); ok && as.Tok == token.ASSIGN && len(as.Lhs) == 1 && len(as.Rhs) == 1 {
+			if call, ok := unparen(as.Rhs[0]).(*ast.CallExpr); ok {
+				if f := callee(info, call); f != nil && strings.HasPrefix(f.Name(), "build") && len(call.Args) == 0 {
+					if ref := se.c.FuncOf(f); ref != nil && ref.Decl.Recv != nil {
+						if fv := fieldVar(info, as.Lhs[0]); fv != nil && isStringType(fv.Type()) {
+							se.calls = append(se.calls, ref.Name)
+							fr := se.newFrame(ref)
+							se.stmts(fr, ref.Decl.Body.List)
+							if fr.hasRet && fr.ret != nil {
+								se.fields[fv] = fr.ret
+								se.fieldPos[fv] = as.Pos()
+							} else {
+								se.errf(as.Pos(), "build step %s returns nothing the extractor can follow", f.Name())
+							}
+							continue
+						}
+					}
+				}
+			}
+		}
 		es, ok := s.(*ast.ExprStmt)
 		if !ok {
 			continue
@@ -909,7 +930,49 @@ func (se *ShapeEval) loop(fr *shapeFrame, s ast.Stmt) {
 	before := se.snap(fr)
 	markEnv := map[types.Object]*sVar{}
 	markFld := map[*types.Var]*sVar{}
+	// locals the loop body never assigns keep their value inside the loop (a format string hoisted out of it is
+	// still that literal); only what the body can change is replaced by a marker
+	assigned := map[types.Object]bool{}
+	ast.Inspect(body, func(n ast.Node) bool {
+		switch x := n.(type) {
+		case *ast.AssignStmt:
+			for _, l := range x.Lhs {
+				if o := identObj(info, l); o != nil {
+					assigned[o] = true
+				}
+			}
+		case *ast.IncDecStmt:
+			if o := identObj(info, x.X); o != nil {
+				assigned[o] = true
+			}
+		case *ast.UnaryExpr:
+			if x.Op == token.AND {
+				if o := identObj(info, x.X); o != nil {
+					assigned[o] = true
+				}
+			}
+		case *ast.CallExpr:
+			// a method called on a local (strings.Builder's WriteString …) may change it
+			if se, ok := unparen(x.Fun).(*ast.SelectorExpr); ok {
+				if o := identObj(info, se.X); o != nil {
+					assigned[o] = true
+				}
+			}
+		case *ast.RangeStmt:
+			for _, e := range []ast.Expr{x.Key, x.Value} {
+				if e != nil {
+					if o := identObj(info, e); o != nil {
+						assigned[o] = true
+					}
+				}
+			}
+		}
+		return true
+	})
 	for k := range fr.env {
+		if !assigned[k] {
+			continue
+		}
 		se.nextVar++
 		m := &sVar{se.nextVar}
 		markEnv[k] = m
